@@ -291,6 +291,10 @@ func c19PositionRun(w *Worker, lexeme, gap string, fieldIdx map[string]int, rep 
 	body := func(c *interp.Ctx) {
 		L, C, U := c.NewInt("line"), c.NewInt("col"), c.NewInt("ucol")
 		c.Assume(fmt.Sprintf("(and (>= %s 1) (<= %s 1000000) (>= %s 0) (<= %s 1000000) (>= %s 0) (<= %s %s))", L.T, L.T, C.T, C.T, U.T, U.T, C.T))
+		// the counters' representation invariant: U characters make up the C
+		// bytes (1..3 bytes each here, the last one being the blank the
+		// replay's prefix ends in); C = 0 exactly when U = 0
+		c.Assume(fmt.Sprintf("(or (and (= %s 0) (= %s 0)) (and (>= %s 1) (<= %s (- (* 3 %s) 2))))", C.T, U.T, U.T, C.T, U.T))
 		lx := w.E.Call(c, newFn, src)
 		plus := func(v interp.SymInt, k int) interp.Value {
 			return interp.SymInt{T: fmt.Sprintf("(+ %s %d)", v.T, k), Kind: 2}
